@@ -4,8 +4,9 @@
    Model: TsParse/TsParse.v; literals: Gen/TsParseConsts.v (regenerated from the source). *)
 From Coq Require Import List NArith.
 From Coq.Strings Require Import Byte.
-From GI Require Import Lib.Bytes Gen.TsParseConsts TsParse.TsParse TsParse.TsParseFacts
-  TsParse.TsEnvFacts TsParse.TsRegexFacts.
+From GI Require Import Lib.Bytes Gen.TsParseConsts TsParse.TsParse TsParse.TsSpec TsParse.TsShape
+  TsParse.TsHolds TsParse.TsParseFacts TsParse.TsEnvFacts TsParse.TsRegexFacts TsParse.TsCmpFacts
+  TsParse.TsHoldsFacts TsParse.TsShapeFacts.
 Import ListNotations.
 
 (* any list of words survives quoting: nothing inside quotes is split, expanded or a comment
@@ -146,3 +147,80 @@ Theorem C02_expand_regex_denotes : forall st cmd k v,
     /\ re_literal p = Some v.
 Proof. exact expand_regex_denotes. Qed.
 Print Assumptions C02_expand_regex_denotes.
+
+(* ---- second wave: cmpenv / cmp, env chains, source shape, executable form *)
+
+(* the control structure of parse, expand and doCmdCmp in the current source is the one the model
+   was written against (structural fingerprints, see gen_tsparse_shape.go and TsShape.v) *)
+Theorem C02_source_shapes_current :
+  ts_parse_shape = parse_go_shape /\ ts_expand_shape = expand_shape /\ ts_cmp_shape = cmp_shape.
+Proof. exact source_shapes_current. Qed.
+Print Assumptions C02_source_shapes_current.
+
+(* expansion of a text that is not tokenized (cmpenv's second file): the value is inserted as it
+   is and scanning resumes after the reference *)
+Theorem C02_expand_text_var : forall st pre k post,
+  no_dollar pre -> valid_name k -> no_alnum_head post ->
+  expand st (pre ++ dollar :: k ++ post) = pre ++ getenv st k ++ expand st post.
+Proof. exact expand_text_var. Qed.
+Print Assumptions C02_expand_text_var.
+
+Theorem C02_expand_text_brace : forall st pre k post,
+  no_dollar pre -> brace_ok k -> strip_suffix ts_regex_suffix k = None ->
+  expand st (pre ++ dollar :: lbrace :: k ++ rbrace :: post) = pre ++ getenv st k ++ expand st post.
+Proof. exact expand_text_brace. Qed.
+Print Assumptions C02_expand_text_brace.
+
+Theorem C02_expand_text_regex : forall st pre k post,
+  no_dollar pre -> brace_ok k ->
+  expand st (pre ++ dollar :: lbrace :: (k ++ ts_regex_suffix) ++ rbrace :: post)
+  = pre ++ quote_meta (getenv st k) ++ expand st post.
+Proof. exact expand_text_regex. Qed.
+Print Assumptions C02_expand_text_regex.
+
+(* cmpenv: the second file goes through the expander exactly once, the first file not at all *)
+Theorem C02_cmpenv_expands_once : forall st name1 name2 text1 text2,
+  name1 <> name2 ->
+  (do_cmd_cmp st false true name1 name2 text1 text2 = true <-> text1 = expand st text2).
+Proof. exact cmpenv_expands_once. Qed.
+Print Assumptions C02_cmpenv_expands_once.
+
+Theorem C02_cmpenv_value_not_reexpanded : forall st name1 name2 pre k post v,
+  name1 <> name2 -> no_dollar pre -> no_dollar post -> no_alnum_head post ->
+  valid_name k -> getenv st k = v ->
+  do_cmd_cmp st false true name1 name2 (pre ++ v ++ post) (pre ++ dollar :: k ++ post) = true.
+Proof. exact cmpenv_value_not_reexpanded. Qed.
+Print Assumptions C02_cmpenv_value_not_reexpanded.
+
+(* cmp expands neither file *)
+Theorem C02_cmp_no_expand : forall st name1 name2 text1 text2,
+  name1 <> name2 ->
+  (do_cmd_cmp st false false name1 name2 text1 text2 = true <-> text1 = text2).
+Proof. exact cmp_no_expand. Qed.
+Print Assumptions C02_cmp_no_expand.
+
+Theorem C02_cmp_negated : forall st env name1 name2 text1 text2,
+  name1 <> name2 ->
+  do_cmd_cmp st true env name1 name2 text1 text2 = negb (do_cmd_cmp st false env name1 name2 text1 text2).
+Proof. exact cmp_negated. Qed.
+Print Assumptions C02_cmp_negated.
+
+(* env k=$o takes the value of o when the line runs; later assignments to o do not reach k *)
+Theorem C02_env_copy_at_assignment : forall st k o,
+  plain_chunk k -> no_sep k -> valid_name o ->
+  getenv (fst (ts_step st (ts_env_cmd ++ SP :: k ++ ts_env_sep :: dollar :: o))) k = getenv st o.
+Proof. exact env_copy_at_assignment. Qed.
+Print Assumptions C02_env_copy_at_assignment.
+
+Theorem C02_env_chain_snapshot : forall st k o later,
+  plain_chunk k -> no_sep k -> valid_name o -> Forall (not_assign k) later ->
+  getenv (cmd_env later (fst (ts_step st (ts_env_cmd ++ SP :: k ++ ts_env_sep :: dollar :: o)))) k
+  = getenv st o.
+Proof. exact env_chain_snapshot. Qed.
+Print Assumptions C02_env_chain_snapshot.
+
+(* the executable boolean form of the statements (extracted, asked by the runner for every case)
+   is true on every state, directory, line, name and value *)
+Theorem C02_holds_on : forall st cd line k v, c02_holds_on st cd line k v = true.
+Proof. exact c02_holds_on_true. Qed.
+Print Assumptions C02_holds_on.
